@@ -243,6 +243,50 @@ def run(seed, tier, replay=None):
                 s = f(ns[0], minimize=mn)
             if np.shape(s) != ():
                 rep.violate(what=f"{call} of a scalar n is not a scalar", input=dict(inp, n=ns[0]))
+    # ---- history stratum: one instance, the same ns object, the direction flipped back and forth (F, T, F) with nothing in
+    # between.  Each value must still be the exact curve of ITS direction (a memo keyed on ns alone, or state left behind by the
+    # previous call, shows here and nowhere else: the main loop interleaves other curves and other ns between two such calls).
+    by_case = {}
+    for (ci, kind, d, mn, ns, inp, tol, shared), r in zip(meta, replies):
+        if r is not None and kind in ("avg", "v", "u", "naive"):
+            by_case.setdefault((ci, kind), {})[mn] = (d, ns, [C.parse_ext(t) for t in r], inp, tol)
+    for (ci, kind), per in sorted(by_case.items()):
+        if set(per) != {False, True} or (ci + len(kind)) % 3:
+            continue
+        d, ns, _, inp, tol = per[False]
+        ys, ws, a, b = cases[ci]
+        with warnings.catch_warnings():
+            warnings.simplefilter("ignore")
+            dd = ED(ys, ws=ws, a=a, b=b)        # a fresh instance with no earlier calls
+            f = dict(avg=dd.average_tuning_curve, naive=dd.naive_tuning_curve, v=dd.v_tuning_curve, u=dd.u_tuning_curve)[kind]
+            arr = np.array(ns)
+            order = (False, True, False) if ci % 2 else (True, False, True)
+            rep.count("history_flip:" + kind)
+            for step, mn in enumerate(order):
+                try:
+                    impl = f(arr, minimize=mn)
+                except Exception as e:  # noqa: BLE001
+                    rep.violate(what=f"{kind} curve raised on a valid input (call {step + 1} of a flip sequence on one instance)", error=repr(e),
+                                input=dict(inp, ns=[int(x) for x in ns], minimize=mn))
+                    break
+                mods = per[mn][2]
+                bad = None
+                for i, n in enumerate(ns):
+                    mv = mods[i]
+                    if kind == "avg" and (mv is None or isinstance(mv, float)):
+                        continue        # infinite / undefined exact expectation: judged (with its exclusion) in the main loop
+                    rep.case(("flip", kind, ci, step, mn, n), nontrivial=True)
+                    ok = same_value(impl[i], mv) if kind == "naive" else frac_close(impl[i], mv, tol)
+                    if not ok and bad is None:
+                        bad = (n, mv, impl[i])
+                if bad is not None:
+                    call = dict(avg="average_tuning_curve", naive="naive_tuning_curve", v="v_tuning_curve", u="u_tuning_curve")[kind]
+                    rep.violate(what=f"{call}(ns, minimize={mn}) differs from the exact curve when it is call {step + 1} of the sequence "
+                                     f"minimize={list(order)} on ONE instance with the same ns (the first call of a fresh instance is right)",
+                                input=dict(inp, n=bad[0], ns=[int(x) for x in ns], minimize=mn, history=[bool(m) for m in order[:step]]),
+                                expected=str(bad[1])[:80], observed=float(bad[2]) if float(bad[2]) == float(bad[2]) else "nan",
+                                call=f"EmpiricalDistribution.{call}")
+                    break
     return rep.result(
         rule="structured samples (sizes 1-40 with ties/infinite values/weights, plus unweighted samples of >1000 points); n: 1,2,3,N-1,N,"
              "N+1,2N+3,64 and random integers (exact rational model), real n in [0.1,1000] (exact levels from the model, 50-digit "
